@@ -1,5 +1,6 @@
 import Varpulis.Model.Zdd
 import Varpulis.Model.ZddTable
+import Varpulis.Model.ZddIter
 import Varpulis.Driver.Util
 /-! `vmodel zdd`: replays the C06/C07 operation lines on the tree model and judges table dumps. -/
 namespace Varpulis.Driver.ZddD
@@ -17,6 +18,9 @@ structure St where
   arena : Bool := true
   regs : List (Nat × Z) := []
   tm : TM := .off
+  /-- first line of the scenario on which the table model's own `describe` (iterator step machine,
+  cached and uncached count, `contains`) differed from the implementation's answer; reported at the next `tdump`/`zdump` -/
+  tbad : Option String := none
 
 def St.get (s : St) (r : Nat) : Z := (s.regs.lookup r).getD .empty
 def St.set (s : St) (r : Nat) (z : Z) : St := { s with regs := (r, z) :: s.regs.filter (·.1 ≠ r) }
@@ -212,6 +216,52 @@ def tmDump (tm : TM) (impl : String) : String :=
   | .zdd regs => verdict (fmtZdds regs) impl
   | .off => "SKIP"
 
+/-- `describe` of the harness computed on the TABLE model: iteration by the iterator step machines
+(`AIter` = `ArenaIterator`, `ZIter` = `ZddIterator`), `count` through the cache, `count_uncached`, and the
+32 membership queries through `contains` -/
+def tmDescribe (tm : TM) (d : Nat) : Option String :=
+  match tm with
+  | .arena s regs => do
+    let r := rget regs d
+    let ss ← s.iterAll r
+    let (s, c) ← s.count r
+    let cu ← s.countUncached r
+    let m ← (List.range 32).foldlM (fun acc i => do
+      let b ← s.contains r (subsetOf i 5)
+      pure (if b then acc + (1 <<< i) else acc)) 0
+    pure s!"{fmtSets ss} c={c} cu={cu} m={toHex m}"
+  | .zdd regs => do
+    let z := zget regs d
+    let ss ← z.toSets
+    let c ← z.count
+    let m ← (List.range 32).foldlM (fun acc i => do
+      let b ← z.contains (subsetOf i 5)
+      pure (if b then acc + (1 <<< i) else acc)) 0
+    pure s!"{fmtSets ss} c={c} cu={c} m={toHex m}"
+  | .off => none
+
+/-- destination register of an operation line that is followed by `describe` in the harness -/
+def destOf (ws : List String) : Option Nat :=
+  match ws with
+  | "fam" :: d :: _ => d.toNat?
+  | ["base", d] => d.toNat?
+  | ["empty", d] => d.toNat?
+  | ["single", d, _] => d.toNat?
+  | "contains" :: _ => none
+  | "gc" :: _ => none
+  | [_, d, _, _] => d.toNat?
+  | _ => none
+
+def tmCheck (tm : TM) (line : String) : Option String :=
+  let (op, impl?) := splitCase line
+  match tm, destOf (words op), impl? with
+  | .off, _, _ => none
+  | _, some d, some impl =>
+    match tmDescribe tm d with
+    | some mine => if mine == impl then none else some s!"[{op}] table model describes {mine}"
+    | none => some s!"[{op}] table model iterator/count returned none"
+  | _, _, _ => none
+
 def stepTree (st : St) (line : String) : St × String :=
   let (op, impl?) := splitCase line
   let impl := impl?.getD ""
@@ -282,12 +332,18 @@ def stepTable (tm : TM) (line : String) : TM :=
 def step (st : St) (line : String) : St × String :=
   let (op, impl?) := splitCase line
   match words op with
-  | ["tdump"] => (st, tmDump st.tm (impl?.getD ""))
-  | ["zdump"] => (st, tmDump st.tm (impl?.getD ""))
+  | ["tdump"] | ["zdump"] =>
+    (match st.tbad with
+    | some b => ({ st with tbad := none }, s!"DIFF model={b}")
+    | none => (st, tmDump st.tm (impl?.getD "")))
   | ("new" :: _) => stepTree st line
   | _ =>
     let (st', v) := stepTree st line
-    ({ st' with tm := stepTable st.tm line }, v)
+    let tm' := stepTable st.tm line
+    let tbad := match st'.tbad with
+      | some b => some b
+      | none => tmCheck tm' line
+    ({ st' with tm := tm', tbad := tbad }, v)
 
 --! vmodel: zdd => Varpulis.Driver.ZddD.driver
 def driver : Prop' St := { init := {}, step := step }
